@@ -451,6 +451,55 @@ class Poison:
         return sorted(set(viol)), sorted(set(third))
 
 
+class ShiftedClock:
+    """the second run of a pair happens "at another time": `time.time`, `localtime`, `gmtime`, `ctime`, `asctime`,
+    `strftime` (without an explicit time), `monotonic`, `perf_counter` and `datetime.now/utcnow/today` are shifted by
+    one hour and 17 seconds. Nothing a simulation writes may depend on when it ran."""
+
+    SHIFT = 3617.0
+
+    def __enter__(self):
+        import datetime as _dt
+        import time as _t
+
+        self._t = _t
+        self._saved = {n: getattr(_t, n) for n in ("time", "localtime", "gmtime", "ctime", "asctime", "strftime",
+                                                   "monotonic", "perf_counter")}
+        sv, sh = self._saved, self.SHIFT
+        _t.time = lambda: sv["time"]() + sh
+        _t.monotonic = lambda: sv["monotonic"]() + sh
+        _t.perf_counter = lambda: sv["perf_counter"]() + sh
+        _t.localtime = lambda secs=None: sv["localtime"](sv["time"]() + sh if secs is None else secs)
+        _t.gmtime = lambda secs=None: sv["gmtime"](sv["time"]() + sh if secs is None else secs)
+        _t.ctime = lambda secs=None: sv["ctime"](sv["time"]() + sh if secs is None else secs)
+        _t.asctime = lambda t=None: sv["asctime"](_t.localtime() if t is None else t)
+        _t.strftime = lambda fmt, t=None: sv["strftime"](fmt, _t.localtime() if t is None else t)
+        self._dt_mod = _dt
+        self._dt_saved = _dt.datetime
+
+        class _Shifted(_dt.datetime):
+            @classmethod
+            def now(cls, tz=None):
+                return _dt.datetime.fromtimestamp(sv["time"]() + sh, tz)
+
+            @classmethod
+            def utcnow(cls):
+                return _dt.datetime.fromtimestamp(sv["time"]() + sh, _dt.timezone.utc).replace(tzinfo=None)
+
+            @classmethod
+            def today(cls):
+                return cls.now()
+
+        _dt.datetime = _Shifted
+        return self
+
+    def __exit__(self, *exc):
+        for n, f in self._saved.items():
+            setattr(self._t, n, f)
+        self._dt_mod.datetime = self._dt_saved
+        return False
+
+
 class GlobalsKept:
     """leave the process's global generator states as they were"""
 
@@ -620,7 +669,7 @@ class DoubleRun(common.Suite):
             orig = originals()
             calc = case.get("calc", "auto")
             a = one_run(case["kind"], case["seed"], case["steps"], case["gA"], case["pA"], orig, calc=calc)
-            with Poison() as poison:
+            with Poison() as poison, ShiftedClock():
                 b = one_run(case["kind"], case["seed"], case["steps"], case["gB"], case["pB"], orig, calc=calc,
                             preuse=bool(case.get("preuse")))
             viol, third = poison.classify()
